@@ -305,7 +305,7 @@ class Ctx:
                                {"kind": "harness", "args": hres["args"], "mismatch": m})
             else:
                 self.other(m["prop"])
-        self.cov["model_drift"] += len(hres["drift"])
+        # model drift is counted by the callers from the harness summary (DRIFT lines are samples)
 
     # ------------------------------------------------------------------ the end
     def finish(self):
